@@ -121,6 +121,18 @@ def make_case(seed, i, tier='quick'):
         _name_and_target(rng, desc)
     if i % 3 != 2:
         _ranges_over_arrays(rng, desc)
+    if i % 4 == 3:
+        # lookup functions (their helpers keep module-level state)
+        sid = gw.sheet_id(desc['books'][0]['name'], desc['books'][0]['sheets'][0]['name'])
+        c0 = desc['books'][0]['sheets'][0]['cells']
+        for row, text in ((13, 'MATCH(2,%s!A1:A5,0)'), (14, 'IFERROR(VLOOKUP(1,%s!A1:B5,2,FALSE),-1)'),
+                          (15, 'IFERROR(LOOKUP(3,%s!A1:A5),-2)'),
+                          (16, 'IFERROR(HLOOKUP(1,%s!A1:C2,2,TRUE),-3)')):
+            t = text % sid
+            c0['K%d' % row] = {'f': ['call', 'IFERROR', [['raw', t.replace(sid + '!', ''), t],
+                                                        ['lit', -9.0]]]}
+        desc['formula_cells'] = list(desc.get('formula_cells', [])) + [
+            [0, 0, 11, r] for r in (13, 14, 15, 16)]
     forms = wbrun.formula_cells(desc)
     if not forms:
         return None
